@@ -469,4 +469,5 @@ func c19(p *model.Prog, r *report.Result) {
 	c19r67(p, r)
 	c19r8(p, r)
 	c19r9(p, r)
+	c19r10(p, r)
 }
